@@ -18,26 +18,84 @@ MT = E + "fiatScalarMontgomeryDomainFieldElement"
 NT = E + "fiatScalarNonMontgomeryDomainFieldElement"
 
 
+class SAbs(Abs):
+    """scalar cell; hand-written code that reads the limbs of such a cell *materialises* them: the canonical
+    representative (for a Montgomery cell: val * 2^256 mod l, a quotient/remainder pair modulo l) is cut into four 64-bit
+    limbs (quotient/remainder atoms), so limb-level code between fiat calls is followed in Int-LF on top of the contracts"""
+    __slots__ = ()
+    dom = None
+    stats = None
+
+    def opaque_explode(self, ex, t):
+        dom, path = SAbs.dom, ex._cur_path
+        if self.zero_limbs:
+            return [0, 0, 0, 0]
+        if self.tag == "mont":
+            _, r = dom.divmod(path, LF.of(self.v).scale(R % L), L)
+        elif self.tag in ("raw", "raw-of-mont"):
+            v = LF.of(self.v)
+            lo, hi = dom.rng(path, v)
+            if self.tag == "raw-of-mont" or lo < 0 or hi >= 2**256:
+                _, r = dom.divmod(path, v, L)
+            else:
+                r = v
+        else:
+            raise ExecError("limbs of a scalar cell with tag %r" % (self.tag,))
+        limbs, rest = [], r
+        for i in range(4):
+            rest, li = dom.divmod(path, rest, 1 << 64)
+            limbs.append(li)
+        if SAbs.stats is not None:
+            SAbs.stats["materialised"] = SAbs.stats.get("materialised", 0) + 1
+        return limbs
+
+
+def limbs_value(c):
+    """integer value (Int-LF form) of a 4-limb cell written by limb-level code, or None"""
+    if isinstance(c, (tuple, list)) and len(c) == 4 and all(isinstance(x, (int, LF)) and not isinstance(x, bool) for x in c):
+        ev = LF()
+        for i, x in enumerate(c):
+            ev = ev + LF.of(x).scale(1 << (64 * i))
+        return ev
+    return None
+
+
 def install(ex, dom, chk=None):
-    ex.opaque[MT] = lambda: Abs(LF(), True, "mont")      # Go zero value: limbs 0 = value 0
-    ex.opaque[NT] = lambda: Abs(LF(), True, "raw")
+    SAbs.dom = dom
+    ex.opaque[MT] = lambda: SAbs(LF(), True, "mont")      # Go zero value: limbs 0 = value 0
+    ex.opaque[NT] = lambda: SAbs(LF(), True, "raw")
     st = {"pre": [], "calls": []}
+    SAbs.stats = st
 
     def get(path, p, want):
         c = ex.load(path, p)
-        if isinstance(c, tuple):   # concrete limbs from package init (scalarTwo168 ...)
+        if isinstance(c, (tuple, list)) and all(type(x) is int for x in c):   # concrete limbs from package init (scalarTwo168 ...)
             ev = sum(int(x) << (64 * i) for i, x in enumerate(c))
             if ev >= L:
                 raise ExecError("concrete scalar constant not reduced")
             return LF({}, ev * RINV % L if want == "mont" else ev)
+        ev = limbs_value(c)
+        if ev is not None:
+            # limbs written by hand-written code: the fiat routine needs them reduced; their meaning follows from the value
+            st["pre"].append(("fiat input (limbs written by limb-level code) < l", ev, path))
+            return ev.scale(RINV) if want == "mont" else ev
         if not isinstance(c, Abs):
             raise ExecError("scalar cell holds %r" % (c,))
         if c.tag != want and not c.zero_limbs:
+            # the limbs of a cell mean eval(limbs) as a raw value and eval(limbs) * R^-1 as a Montgomery value; a routine
+            # that reads a cell under the other convention (e.g. fiatScalarMul applied to a freshly decoded, not yet
+            # converted value and a constant that compensates) is followed through that relation
+            if c.tag == "raw" and want == "mont":
+                st["pre"].append(("fiat input (raw value used as a Montgomery value) < l", LF.of(c.v), path))
+                return LF.of(c.v).scale(RINV)
+            if c.tag == "mont" and want == "raw":
+                _, r = dom.divmod(path, LF.of(c.v).scale(R % L), L)
+                return r
             raise ExecError("scalar cell has tag %s, expected %s" % (c.tag, want))
         return c.v
 
     def put(path, p, v, tag):
-        ex.store(path, p, Abs(LF.of(v), False, tag))
+        ex.store(path, p, SAbs(LF.of(v), False, tag))
 
     def f_add(ex_, path, a):
         st["calls"].append("Add")
